@@ -1,10 +1,12 @@
 import Ldlm.Driver.Codec
 import Ldlm.Driver.Seq
 import Ldlm.Driver.Rest
+import Ldlm.Driver.Client
 
 def main (args : List String) : IO UInt32 := do
   match args with
   | ["codec"] => Ldlm.Driver.codecMain; return 0
   | ["seq"] => Ldlm.Driver.seqMain; return 0
   | ["rest"] => Ldlm.Driver.restMain; return 0
+  | ["client"] => Ldlm.Driver.clientMain; return 0
   | _ => IO.eprintln "usage: driver (codec|seq|conc) ..."; return 2
